@@ -31,6 +31,15 @@ func JudgeAlive(run *vr.Run, sc *Scenario, w *World, choices []int) bool {
 			fmt.Sprintf("%s: goroutine %s panics (process death): %s in %s; server emitted %v", sc.Name, w.Fatal.Thread, w.Fatal.Msg, w.Fatal.Frame, w.Srv.Emitted), rep)
 		return false
 	}
+	for _, r := range w.Results {
+		if r.Panic != "" {
+			// a panic that reaches the goroutine which made the call ends the process unless the application
+			// recovers it: no statement about the session holds after that
+			run.Violation(fmt.Sprintf("caller-panic|%s|%s", vr.MsgClass(r.Panic), r.Frame),
+				fmt.Sprintf("%s: the call of caller %d (tag %d) panics: %s in %s; server emitted %v", sc.Name, r.Caller, r.Call.Tag, r.Panic, r.Frame, w.Srv.Emitted), rep)
+			return false
+		}
+	}
 	return true
 }
 
